@@ -431,6 +431,16 @@ func (r *runner) subject(j *job) {
 			}
 		}
 	}
+	if !d.FinalNL && len(d.Lines) > 0 && d.Lines[len(d.Lines)-1].Mode == modeDefault {
+		// a class of its own: a bare `#` appended as the last line of a text that has no final newline
+		c.Hist("end-probe")
+		steps := []Step{{Op: "insert", At: []int{len(d.Lines)}, Text: []string{"#"}}}
+		v, _ := r.check(s, d, orig, steps)
+		c.Count(s.name+"|"+fmt.Sprint(steps), orig.kind == "ok")
+		if v.bad {
+			c.Fail(failureKey(v.kind, d, steps), fmt.Sprintf("%s: no final newline; after appending the line \"#\": %s", s.name, v.what), replay{s.name, s.text, steps})
+		}
+	}
 	for i := 0; i < j.nVariants; i++ {
 		var steps []Step
 		for k, n := 0, 1+rng.Intn(3); k < n; k++ {
@@ -465,9 +475,15 @@ func (r *runner) subject(j *job) {
 			} else if len(d.Lines) > 0 {
 				col0 = d.Lines[len(d.Lines)-1].Mode == modeDefault
 			}
-			for _, k := range kinds {
+			for ki, k := range kinds {
 				if strings.HasPrefix(k, "#") && !col0 {
 					continue
+				}
+				if k == "#" && b == len(d.Lines) && !d.FinalNL {
+					continue // end probe
+				}
+				if s.path != "" && (b+ki)%3 != 0 {
+					continue // corpus files: a third of the (boundary, kind) pairs, every kind at every third boundary
 				}
 				c.Hist("exhaustive-boundary-insert")
 				run([]Step{{Op: "insert", At: []int{b}, Text: []string{k}}}, false)
@@ -912,7 +928,7 @@ Notation T := true. Notation F := false.`
 			continue // quick: every other corpus file, alternating with the seed
 		}
 		coq := (i+int(c.Seed))%coqEvery == 0 && r.planCoq(s.text)
-		jobs = append(jobs, &job{s: s, seed: c.Rng.Uint64(), nVariants: nv, coqOrig: coq, coqVar: coq, exhaustive: c.Thorough() && len(s.text) < 1000})
+		jobs = append(jobs, &job{s: s, seed: c.Rng.Uint64(), nVariants: nv, coqOrig: coq, coqVar: coq, exhaustive: c.Thorough() && len(s.text) < 700})
 	}
 	r.runJobs(jobs)
 	c.Res.Extra["t_corpus_s"] = time.Since(t0).Seconds()
